@@ -153,7 +153,7 @@ int main(int argc, char** argv) {
     printf("REPLAY-PASS\n"); return 0;
   }
 
-  long per_pair = c.args.geti("n", c.thorough ? 5000 : 1500);
+  long per_pair = c.args.geti("n", c.thorough ? 5000 : 3000);
   long illformed = 0;
   for (size_t pi = 0; pi < fc.pairs.size(); pi++) {
     if ((int)(pi % (size_t)c.args.nshards) != c.args.shard) continue;
